@@ -428,3 +428,23 @@ type KCrossNamed struct {
 	Title string `gorm:"column:Name"`
 	Name  string `gorm:"column:Label"`
 }
+
+// has-many children with a has-one of their own (C05)
+type Badge struct {
+	ID       uint
+	KeeperID uint
+	Code     string
+}
+
+type Keeper struct {
+	ID       uint
+	KennelID uint
+	Name     string
+	Badge    Badge
+}
+
+type Kennel struct {
+	ID      uint
+	Name    string
+	Keepers []Keeper
+}
